@@ -19,7 +19,8 @@ class C09(EvalFamProp):
     P_UNSAFE_SRC = 0.0
     P_BAD = 0.12
     RULE = ('1-3 stages with !xref nodes forming chains, fan-in, forward / backward references, references into and out of lists, '
-            'mappings and call arguments, dangling and self references and cycles (12% error stream); every build runs under a '
+            'mappings and call arguments, dangling and self references and cycles (12% error stream), references whose text is also the '
+            'text of a single key ("o.lr" next to o: {lr: ..}, "a[0]" next to a: [..]) in random key order; every build runs under a '
             'wall-clock watchdog; non-trivial = at least one !xref node survives merging; distinct by SHA-1')
     ASSUMPTIONS = ['identity is compared for containers and execution results (small ints/strings are interned by CPython)',
                    'unbounded recursion is ended by the interpreter\'s recursion limit and surfaces as EvalError']
@@ -59,6 +60,20 @@ class C09(EvalFamProp):
                 cut = rng.randrange(1, len(items))
                 docs = [{'raw': M(items[:cut])}, {'raw': M(items[cut:])}]
             out[i % len(out)] = {'docs': docs, 'style': ['flow', 0, 0]}
+        # shared path strings: a single key whose text spells a nested path ("o.lr" next to o: {lr: ..}, "a[0]" next to a: [..])
+        # plus references whose text is that string, all in random key order (a reference means the nested path, repo fix D33)
+        for i in range(max(3, n // 15)):
+            top, sub = rng.sample(['a', 'b', 'o', 'k'], 2)
+            if rng.random() < 0.5:
+                nested, text = (top, M([(sub, rng.choice([S(1), Q([S(1), S(2)]), M([], tag={'k': 'call', 'f': 'rec.g'})]))])), f'{top}.{sub}'
+            else:
+                nested, text = (top, Q([rng.choice([S(7), M([('z', S(3))])]), S(8)])), f'{top}[0]'
+            items = [nested] if rng.random() < 0.75 else []
+            items.append((text, rng.choice([S(0.5), S('alias'), Q([S('alias')])])))
+            for nm in rng.sample(['r', 's', 't'], rng.choice([1, 2])):
+                items.append((nm, Stext(text, 'xref') if rng.random() < 0.7 else M([(0, Stext(text, 'xref'))], tag={'k': 'call', 'f': 'rec.f'})))
+            rng.shuffle(items)
+            out[(len(out) - 1 - i) % len(out)] = {'docs': [{'raw': M(items)}], 'style': ['flow', 0, 0]}
         return out
 
     def oracle(self, case, io, ans):
